@@ -464,6 +464,21 @@ impl Prop for PWalk {
                 }
             }
         }
+        // one case in twenty-five on purpose: -H, -depth, and a starting point that is a symbolic link to a directory
+        // (walkdir does not treat such a root as a directory: the link has to come after everything beneath it)
+        let mut cfg = cfg;
+        let mut mode = mode;
+        if idx % 25 == 9 && !use_files0 {
+            let dirs: Vec<usize> = (1..=tree.len()).filter(|i| tree[i - 1]["kind"] == "d" && tree[i - 1]["parent"].as_u64() == Some(0)).collect();
+            if let Some(&d) = dirs.first() {
+                tree.push(json!({"parent": 0, "name": str_to_json("hroot"), "kind": "l", "target": d}));
+                let k = tree.len();
+                roots = vec![json!({"spell": str_to_json(*rng.pick(&["hroot", "./hroot"])), "node": k})];
+                cfg["mode"] = json!("H");
+                cfg["depth"] = json!(true);
+                mode = "H";
+            }
+        }
         let roots_last_empty = roots.last().map(|r| arr(&r["spell"]).is_empty()).unwrap_or(false);
         let mut v = json!({"tree": tree, "roots": roots, "cfg": cfg, "form": rng.below(30)});
         if mode == "Pexplicit" || mode.ends_with("follow") {
